@@ -1038,4 +1038,11 @@ pub fn mulmod""", expect=r'semantics:ADDMOD:(add512|no-other)'),
  dict(id='K12-claimed-space-last-wins', pid=['C09', 'C10'], file='actors/verifreg/src/lib.rs', old="""                    sector_claimed_space += DataCap::from(new_claim.size.0);""", new="""                    sector_claimed_space = DataCap::from(new_claim.size.0);""", expect=r'running-totals:.*sector_claimed_space'),
  dict(id='K12-declared-fault-power-last-wins', pid=['C02', 'C04'], file='actors/miner/src/lib.rs', old="""                new_fault_power_total += &deadline_power_delta;""", new="""                new_fault_power_total = deadline_power_delta.clone();""", expect=r'running-totals:.*new_fault_power_total'),
  dict(id='K12-expired-pledge-last-wins', pid=['C04', 'C03'], file='actors/miner/src/deadline_state.rs', old="""            all_on_time_pledge += &partition_expiration.on_time_pledge;""", new="""            all_on_time_pledge = partition_expiration.on_time_pledge.clone();""", expect=r'running-totals:.*all_on_time_pledge|prov'),
+
+ # ---------------- K14 error discipline (generic: no Result discarded)
+ dict(id='K14-market-pending-removal-error-ignored', pid=['C08', 'C06'], file='actors/market/src/state.rs', old="""            self.remove_pending_deal(store, *deal_cid)?;""", new="""            let _ = self.remove_pending_deal(store, *deal_cid);""", expect=r'results-not-discarded:.*remove_pending_deal'),
+ dict(id='K14-multisig-purge-error-swallowed', pid=['C12'], file='actors/multisig/src/lib.rs', old="""            st.purge_approvals(rt.store(), &Address::new_id(from_resolved))?;
+            Ok(())""", new="""            st.purge_approvals(rt.store(), &Address::new_id(from_resolved)).ok();
+            Ok(())""", expect=r'results-not-discarded:.*purge_approvals'),
+ dict(id='K14-miner-notify-error-ignored', pid=['C03', 'C05'], file='actors/miner/src/lib.rs', old="""        notify_pledge_changed(rt, &newly_vested.neg())?;""", new="""        let _ = notify_pledge_changed(rt, &newly_vested.neg());""", expect=r'results-not-discarded:.*notify_pledge_changed|notify-propagated'),
 ]
